@@ -1,4 +1,5 @@
-import SlimModel.Slim
+import SlimModel.Stat
+import SlimModel.Scan
 /-
   Driver.Trie — family `trie`: the model side of harness/fam/trie/interp.go.
 
@@ -12,6 +13,43 @@ structure State where
   t1 : Option Trie1 := none
   msg : SlimMsg := {}
   has : Bool := false          -- an instance exists
+  enc : String := "none"
+  /-- `st.levels`: replaced only by a successful build / load / Reset -/
+  levels : List Slim.Level := [(0, 0, 0)]
+
+/-- FNV-1a 64 over bytes (each `Char` of our renderings is one byte) -/
+def fnv64 (bs : List Nat) : String :=
+  let h := bs.foldl (fun (h : UInt64) b => (h ^^^ UInt64.ofNat b) * 1099511628211) 14695981039346656037
+  let hex := (List.range 16).map (fun k => hexDigit ((h.toNat >>> (4 * (15 - k))) % 16))
+  String.ofList hex
+
+def strBytes (s : String) : List Nat := s.toList.map (fun c => c.toNat % 256)
+
+/-- Go's `%v` of the decoded value of a leaf, per encoder name -/
+def fmtVal (enc : String) : Option Bytes → String
+  | none => "<nil>"
+  | some b =>
+    match enc with
+    | "i8" | "i16" | "i32" | "i64" | "int" => toString (Slim.leSigned b)
+    | "u16" | "u32" | "u64" => toString (leVal b)
+    | "s16" => String.ofList ((b.drop 2).map (fun c => Char.ofNat c.toNat))
+    | _ => "[" ++ " ".intercalate (b.map (fun c => toString c.toNat)) ++ "]"
+
+def kvStr (k v : Option Bytes) : String :=
+  (match k with | some k => hexOf k | none => "nil") ++ "=" ++ (match v with | some v => hexOf v | none => "nil")
+
+def compact (s : String) : String :=
+  if s.length ≤ 2000 then "l:" ++ s else "h:" ++ toString s.length ++ ":" ++ fnv64 (strBytes s)
+
+def itemsStr (items : List (Option Bytes × Option Bytes)) : String :=
+  compact (String.join (items.map (fun (k, v) => kvStr k v ++ ";")))
+
+def statStr (r : Slim.StatRes) : String :=
+  "levelcnt=" ++ toString r.levels.length ++ " levels=" ++
+  ",".intercalate (r.levels.map (fun (t, i, l) => toString t ++ "/" ++ toString i ++ "/" ++ toString l)) ++
+  " keys=" ++ toString r.keyCnt ++ " nodes=" ++ toString r.nodeCnt
+
+def b01 (t : String) : Bool := t == "1"
 
 def init : State := {}
 
@@ -90,7 +128,11 @@ def step (st : State) (toks : List String) : State × String :=
     | some (keys, vals) =>
       match build keys (if withVals then some vals else none) (if flags == "-" then {} else parseOpt flags) with
       | .error e => ({ st with has := false, t1 := none, msg := {} }, errStr e)
-      | .ok t => ({ st with has := true, t1 := some t, msg := Slim.encode t }, "ok")
+      | .ok t =>
+        let msg := Slim.encode t
+        match Slim.initLevels msg with
+        | .ok lv => ({ st with has := true, t1 := some t, msg := msg, enc := enc, levels := lv }, "ok")
+        | .error e => ({ st with has := true, t1 := some t, msg := msg, enc := enc }, errStr e)
   | ["trie.get", q] =>
     match parseHex q with
     | some q => (st, both st (fun v => getStr (get v q)))
@@ -110,6 +152,38 @@ def step (st : State) (toks : List String) : State × String :=
   | ["trie.reload"] =>
     -- TEMPORARY until SlimModel.Marshal lands: the loaded instance only has the message
     (if st.has then ({ st with t1 := none }, "ok") else (st, "panic"))
+  | ["trie.stat"] =>
+    (st, match Slim.stat st.msg st.levels with | .ok r => statStr r | .error e => errStr e)
+  | ["trie.string"] =>
+    (st, both st (fun v => match Slim.toStringSlim v (fmtVal st.enc) with
+      | .ok s => toString s.length ++ " " ++ fnv64 (strBytes s)
+      | .error e => errStr e))
+  | ["trie.iter", start, incl, withval, n] =>
+    match parseHex start, n.toNat? with
+    | some start, some n =>
+      (st, both st (fun v =>
+        match (do let s ← Scan.newIterFrom v start (b01 incl); Scan.iterTake v (b01 withval) n s) with
+        | .ok items => itemsStr items
+        | .error e => errStr e))
+    | _, _ => (st, "bad-op")
+  | ["trie.scan", start, incl, withval, stop] =>
+    match parseHex start, stop.toInt? with
+    | some start, some stop =>
+      let stopAfter := if stop < 0 then none else some stop.toNat
+      (st, both st (fun v =>
+        match Scan.scanFrom v start (b01 incl) (b01 withval) (fun _ => true) stopAfter with
+        | .ok items => itemsStr (items.map (fun (k, v) => (some k, v)))
+        | .error e => errStr e))
+    | _, _ => (st, "bad-op")
+  | ["trie.scanft", start, incl, stop_, inclEnd, withval, stop] =>
+    match parseHex start, parseHex stop_, stop.toInt? with
+    | some start, some stopKey, some stop =>
+      let stopAfter := if stop < 0 then none else some stop.toNat
+      (st, both st (fun v =>
+        match Scan.scanFromTo v start (b01 incl) stopKey (b01 inclEnd) (b01 withval) stopAfter with
+        | .ok items => itemsStr (items.map (fun (k, v) => (some k, v)))
+        | .error e => errStr e))
+    | _, _, _ => (st, "bad-op")
   | ["trie.geti8", q] => gi st 1 q
   | ["trie.geti16", q] => gi st 2 q
   | ["trie.geti32", q] => gi st 4 q
